@@ -243,6 +243,24 @@ def check_C12(ctx):
         summ = harness(ctx, ["timing", "replay", "--spellings", "2"], cases_file=f,
                        name="timing-replay", timeout=3600)
         report_mismatches(ctx, summ, "timing-point decoding differs from the TimingLines specification")
+    # [General] records arriving between timing lines (sections repeat / any order): SectionOrder.tla
+    sany(ctx, "SectionOrder")
+    for a in (("AlphaShape", "AlphaVel") if thorough else ("AlphaShape",)):
+        name = "MC_SectionOrder_%s" % a
+        ocases = os.path.join(ctx.work, name + ".ndjson")
+        body = ocases + ".body"
+        cfg = dict(spec="OSpec", invariants=["OrderRefines", "OrderShape", "EmitOrderCase"],
+                   constants=dict(Alpha="<-" + a, Gens="<-GensFour", MaxLines="2", Emit="TRUE", MaxSwitches="2" if thorough else "1", EmitOrder="TRUE"))
+        r = tlc(ctx, "SectionOrder", name, cfg, workers=14, timeout=3000, cases_file=body)
+        with open(ocases, "w") as fo:
+            fo.write(json.dumps({"alpha": r["alpha"]}) + "\n")
+            with open(body) as b:
+                for ln in b:
+                    if '"gh":' in ln:
+                        fo.write(ln)
+        os.remove(body)
+        summ = harness(ctx, ["timing", "order"], cases_file=ocases, name="timing-order", timeout=3600)
+        report_mismatches(ctx, summ, "timing lines decoded with [General] values other than those in effect when the line is read")
     tcfg = dict(spec="TrSpec", invariants=["TrShape"], postcondition="Accepted",
                 constants=dict(Alpha="<-AlphaShape", Gens="<-GensTwo", MaxLines="0", Emit="FALSE"))
     runs, lines = (40, 250) if thorough else (8, 150)
